@@ -277,11 +277,12 @@ def rule_committed_source(ctx):
     lp = [h for h in cu.nodes if h.kind == "loop" and isinstance(h.ast, ast.For) and unparse(h.ast.iter) == "self._committed_futs"]
     ctx.ob(R, fuc, fuc.node, len(lp) == 1 and len(srs) == 1 and srs[0] in cu.loop_body(lp[0]), "update_committed does not resolve every registered waiter", text="all-waiters-resolved")
     uc = c.calls(attr="update_committed")
-    it = [t for t in c.nodes if t.kind == "test" and isinstance(t.ast, ast.Compare) and isinstance(t.ast.ops[0], ast.In) and unparse(t.ast.comparators[0]) == "offsets"]
+    it = [t for t in c.nodes if t.kind == "test" and isinstance(t.ast, ast.Compare) and len(t.ast.ops) == 1 and isinstance(t.ast.ops[0], (ast.In, ast.NotIn)) and unparse(t.ast.comparators[0]) == "offsets"]
     ok = len(uc) == 2 and len(it) == 1
     if ok:
-        a = [u for u in uc if c.dominated_by_branch(it[0], "T", u)]
-        b = [u for u in uc if c.dominated_by_branch(it[0], "F", u)]
+        l_in, l_out = ("T", "F") if isinstance(it[0].ast.ops[0], ast.In) else ("F", "T")     # `tp in offsets` / `tp not in offsets`
+        a = [u for u in uc if c.dominated_by_branch(it[0], l_in, u)]
+        b = [u for u in uc if c.dominated_by_branch(it[0], l_out, u)]
         ok = len(a) == 1 and len(b) == 1 and unparse(arg_of(a[0].ast, 0)) == f"offsets[{unparse(it[0].ast.left)}]" and "UNKNOWN_OFFSET" in unparse(arg_of(b[0].ast, 0))
     ctx.ob(R, fi, fi.node, ok, "committed waiters are not answered `reply offset, else UNKNOWN`", text="answer-values")
     ds = local_defs(c, "offsets")
